@@ -133,6 +133,21 @@ func VerifParseKind(l string) int {
 	return -1
 }
 
+// VerifParseValue exposes what the compiler takes from a flags, prefix or suffix line (the text that ends up in the
+// generated regex); "" for every other kind of line.
+func VerifParseValue(l string) string {
+	pl := NewParser(nil, strings.NewReader("")).parseLine(l)
+	switch pl.parsedType {
+	case flags:
+		return pl.flags
+	case prefix:
+		return pl.prefix
+	case suffix:
+		return pl.suffix
+	}
+	return ""
+}
+
 // C19: definition expansion terminates promptly whatever the definitions reference - a definition that mentions itself,
 // two definitions that mention each other, an ordinary chain. (Cyclic references are not expanded meaningfully; the
 // point is that generate returns.)
